@@ -146,6 +146,48 @@ pub fn dispatch(f: &[&str]) -> Result<String, String> {
                 _ => Ok("ERR".into()),
             }
         }
+        // REN <fmt> Z... : SemVer::from(Zerv) / PEP440::from(Zerv) + Display + fields
+        "REN" => {
+            let mut c = crate::zenc::Cur { f, i: 2 };
+            match crate::zenc::zerv(&mut c)? {
+                Err(_) => Ok("INVALID".into()),
+                Ok(z) => match f[1] {
+                    "semver" => {
+                        let v: SemVer = z.into();
+                        Ok(format!("OK {}", semver_fields(&v)))
+                    }
+                    "pep440" => {
+                        let v: PEP440 = z.into();
+                        Ok(format!("OK {}", pep_fields(&v)))
+                    }
+                    o => Err(format!("fmt {o}")),
+                },
+            }
+        }
+        // RENP <fmt> <preset-name> <vars...> : preset schema chosen by schema_with_zerv, then rendered
+        "RENP" => {
+            use std::str::FromStr as _;
+            let name = unhex(f[2])?;
+            let mut c = crate::zenc::Cur { f, i: 3 };
+            let vs = crate::zenc::vars(&mut c)?;
+            let preset = match zerv::schema::ZervSchemaPreset::from_str(&name) {
+                Ok(p) => p,
+                Err(_) => return Ok("UNKNOWN".into()),
+            };
+            let schema = preset.schema_with_zerv(&vs);
+            let z = zerv::version::zerv::Zerv::new(schema, vs).map_err(|e| e.to_string())?;
+            match f[1] {
+                "semver" => {
+                    let v: SemVer = z.into();
+                    Ok(format!("OK {}", semver_fields(&v)))
+                }
+                "pep440" => {
+                    let v: PEP440 = z.into();
+                    Ok(format!("OK {}", pep_fields(&v)))
+                }
+                o => Err(format!("fmt {o}")),
+            }
+        }
         // TS <pattern> <u64> : resolve_timestamp
         "TS" => {
             let p = unhex(f[1])?;
